@@ -148,22 +148,24 @@ func (d *hImpl) step(t []string, cmp func(a, b int) bool) string {
 		}
 		h.Init(vs, c)
 		// register the new elements in allocation order (= order of vs)
-		cur := heapValues(h)
-		used := map[*heapz.Element[int]]bool{}
-		for _, v := range vs {
-			var found *heapz.Element[int]
-			for _, e := range cur {
-				if _, known := d.ids[e]; e != nil && !known && !used[e] && e.Value == v {
-					found = e
-					break
-				}
+		// (the first not yet known element carrying the value, in array order)
+		byVal := map[int][]*heapz.Element[int]{}
+		for _, e := range heapValues(h) {
+			if e == nil {
+				continue
 			}
-			if found == nil {
+			if _, known := d.ids[e]; !known {
+				byVal[e.Value] = append(byVal[e.Value], e)
+			}
+		}
+		for _, v := range vs {
+			l := byVal[v]
+			if len(l) == 0 {
 				d.el = append(d.el, nil) // lost element: shows as `?`
 				continue
 			}
-			used[found] = true
-			d.reg(found)
+			byVal[v] = l[1:]
+			d.reg(l[0])
 		}
 		return "ok"
 	case t[0] == "push" && len(t) == 3:
@@ -198,6 +200,20 @@ func (d *hImpl) step(t []string, cmp func(a, b int) bool) string {
 		xs := []int{}
 		for x := range h.PopAll() {
 			xs = append(xs, x)
+		}
+		return fmt.Sprint(xs)
+	case t[0] == "popalln" && len(t) == 3:
+		// the consumer leaves the range loop after n >= 1 received elements
+		n, ok := atoi(t[2])
+		if !ok || n < 1 || strings.HasPrefix(t[2], "-") {
+			return "bad-op"
+		}
+		xs := []int{}
+		for x := range h.PopAll() {
+			xs = append(xs, x)
+			if len(xs) == n {
+				break
+			}
 		}
 		return fmt.Sprint(xs)
 	case t[0] == "pushe" && len(t) == 3:
@@ -459,6 +475,51 @@ func checkHeap(c core.Case, out []string) *core.Failure {
 				}
 				broken[k] = false
 				live[k] = map[int]bool{}
+			case "popalln":
+				// leaving the loop after n elements = n Pops (fewer when the heap runs dry). The
+				// elements that left are the live ones that now report -1; they carry the yielded
+				// values, and nothing that stays precedes any of them
+				kk, _ := atoi(t[2])
+				xs, ok := parseInts(res)
+				if !ok {
+					return fail("heap-format", i, c, out, "unparsable")
+				}
+				if want := min(kk, len(live[k])); len(xs) != want {
+					return fail("heap-popalln-count", i, c, out, "the loop left after %d elements on a heap of %d must have received %d, received %d", kk, len(live[k]), want, len(xs))
+				}
+				var gone, goneVals []int
+				for e := range live[k] {
+					if e < len(cells) && cells[e].idx == -1 {
+						gone = append(gone, e)
+						goneVals = append(goneVals, vals[e])
+					}
+				}
+				if len(gone) != len(xs) || !sameMultiset(goneVals, xs) {
+					sort.Ints(gone)
+					return fail("heap-popalln-detached", i, c, out, "%d elements were yielded, the handles that report Index()=-1 now are %v (values %v)", len(xs), gone, goneVals)
+				}
+				wasDirty := anyDirty(k)
+				for _, e := range gone {
+					delete(live[k], e)
+					delete(dirty, e)
+				}
+				if !wasDirty {
+					if !sortedBy(xs, cmps[k]) {
+						return fail("heap-popalln-sorted", i, c, out, "the yielded elements are not sorted")
+					}
+					if len(xs) > 0 {
+						for _, x := range []int{xs[0], xs[len(xs)-1]} {
+							for o := range live[k] {
+								if cmps[k](vals[o], x) {
+									return fail("heap-popalln-min", i, c, out, "element %d (value %d) is still in the heap and precedes the yielded %d", o, vals[o], x)
+								}
+							}
+						}
+					}
+				}
+				if len(live[k]) == 0 {
+					broken[k] = false
+				}
 			}
 		}
 		// state predicate after every call
@@ -801,7 +862,13 @@ func genHeap(r *core.Rand) core.Case {
 		if len(g.arr[k]) < target {
 			pushW = 44
 		}
-		switch r.Pick(pushW, 14, 3, 2, 20, 9, 5, 1, initWeight, 9, 9) {
+		switch r.Pick(pushW, 14, 3, 2, 20, 9, 5, 1, initWeight, 9, 9, 3) {
+		case 11:
+			n := pickStop(r, len(g.arr[k]))
+			lines = append(lines, fmt.Sprintf("popalln %s %d", H, n))
+			for ; n > 0 && len(g.arr[k]) > 0; n-- {
+				g.pop(k, 'a')
+			}
 		case 0:
 			v := valFor(len(g.vals))
 			lines = append(lines, fmt.Sprintf("push %s %d", H, v))
@@ -898,8 +965,27 @@ func sizeBucket(n int) string {
 		return "8-15"
 	case n < 32:
 		return "16-31"
+	case n < 64:
+		return "32-63"
+	case n < 1000:
+		return "64-999"
 	}
-	return "32+"
+	return "1000+"
+}
+
+// stopLabel: where the consumer left the loop, relative to the heap size n.
+func stopLabel(k, n int) string {
+	switch {
+	case k > n:
+		return "k>n"
+	case k == n:
+		return "k=n"
+	case k == 1:
+		return "k=1"
+	case k == n-1:
+		return "k=n-1"
+	}
+	return "1<k<n-1"
 }
 
 // classifyHeap names the branch of heap.go every call took, read off the implementation's
@@ -1061,6 +1147,25 @@ func classifyHeap(c core.Case, out []string) []string {
 					detach(o, "popall")
 				}
 			}
+		case "popalln":
+			if k < 0 || len(t) != 3 {
+				break
+			}
+			ls = append(ls, "h:popalln:n="+sizeBucket(n[k]))
+			if stop, ok := atoi(t[2]); ok {
+				ls = append(ls, "h:popalln:"+stopLabel(stop, n[k]))
+			}
+			if [2]int{lenA, lenB}[k] > 0 {
+				ls = append(ls, "h:popalln:partial")
+				if n[k] >= 64 {
+					ls = append(ls, "h:popalln:partial:n>=64")
+				}
+			}
+			for o := range own {
+				if own[o] == k && o < len(cells) && cells[o].idx == -1 {
+					detach(o, "popall")
+				}
+			}
 		case "rm", "fix", "setfix":
 			if !handleOp {
 				break
@@ -1123,6 +1228,7 @@ func classifyHeap(c core.Case, out []string) []string {
 			maxLen = lenB
 		}
 	}
+	ls = append(ls, sizeLabels(maxLen)...)
 	ls = append(ls, "h:maxlen="+sizeBucket(maxLen))
 	if cmp != nil && len(seenVals) >= 4 && !sawInitc {
 		eq := true
